@@ -524,4 +524,32 @@ def bosonicQuad {K : Type} [Zero K] [Add K] [Sub K] [Mul K] (c s : K) (comps : L
 def bosonicMarginalParams {K : Type} [Add K] [Mul K] (c s : K) (comps : List (K × GData K)) : List (K × K × K) :=
   comps.map fun p => (p.1, (quad1 c s p.2).1, (quad1 c s p.2).2)
 
+/-! ## Gaussian `dm()` / `reduced_dm(modes)`: which Fock tensor is handed out
+
+thewalrus supplies the numbers (`state_vector` → `ψ`, `density_matrix` → `T`, scripted in the correspondence); the state object
+decides which one is used and in which index layout. -/
+
+/-- `np.multiply.outer(psi, psi.conj())` of a `k`-mode ket: axes `0..k-1` are the ket indices, `k..2k-1` the bra indices -/
+def outerKet {K : Type} [Mul K] (k : Nat) (cj : K → K) (ψ : Tens K) : Tens K :=
+  fun idx => ψ (fun a => if a < k then idx a else 0) * cj (ψ (fun a => if a < k then idx (a + k) else 0))
+
+/-- `[k for m in range(num) for k in (m, m + num)]` -/
+def dmAxes (k : Nat) : List Nat := (List.range k).flatMap fun m => [m, m + k]
+
+/-- the documented layout `ρ[i₀, j₀, i₁, j₁, …] = ψ[i₀, i₁, …] · conj ψ[j₀, j₁, …]` (what `mix` of K4 produces, restricted to
+`k` modes) -/
+def dmSpec {K : Type} [Mul K] (k : Nat) (cj : K → K) (ψ : Tens K) : Tens K :=
+  fun idx => ψ (fun a => if a < k then idx (2 * a) else 0) * cj (ψ (fun a => if a < k then idx (2 * a + 1) else 0))
+
+/-- `BaseGaussianState.reduced_dm(modes)` (`dm()` is the call with `modes = range(n)`): guards, then the state-vector branch only
+when the state is pure *and* no mode is traced out (fix `027e54e`), transposed into the documented layout (fix `a25e90d`); otherwise
+thewalrus' density matrix as it comes.  Returns the number of modes and the tensor. -/
+def gaussReducedDm {K : Type} [Mul K] (cj : K → K) (n : Nat) (modes : List Nat) (isPure : Bool) (ψ T : Tens K) :
+    Except Err (Nat × Tens K) :=
+  if !isSortedLe modes then .error .valueError
+  else if modes.length > n then .error .valueError
+  else if modes ≠ List.range n && (gaussInd n modes).any (fun i => decide (2 * n ≤ i)) then .error .indexError
+  else if isPure && modes.length == n then .ok (modes.length, trList (dmAxes modes.length) (outerKet modes.length cj ψ))
+  else .ok (modes.length, T)
+
 end SFV.States
